@@ -1112,8 +1112,8 @@ def safety_check(pid, mode, tier):
                                 {"what": f"after the caller changed values yielded by earlier streams, a new generate_{'true' if want else 'false'} stream yielded a value on which the predicate does not return {want}", "value": repr(v)[:300], "predicate_returned": out},
                                 explain_safety(mode, s_, r))
     chk.extra["history_streams"] = {"specs": len(hist_specs), "values_judged": hist_judged}
-    for d in (dis + edis)[:20]:
-        chk.add_failure(d["input"], {"what": "model and implementation disagree: " + str(d.get("what", "evalG")), **{k: v for k, v in d.items() if k not in ("input", "what")}}, None)
+    # (a disagreement between model and implementation is a broken correspondence, not a failing input: finish() reports it
+    # as such -- `no-failing-input-found` unless a value above really fails the predicate -- with the first disagreements in the replay)
     chk.evaluations = judged + searched + hist_judged + edge_judged
     chk.extra.update(specs=len(specs), specs_skipped_because_optimize_raises=sorted(set(SKIPPED)), cases=len(cases), prefix_length=n, status_counts=status_count, kinds=kinds, values_judged_on_tapes=judged,
                      values_judged_with_real_seeds=searched, max_line_events_per_successful_next=max_events, fuel=FUEL, events_budget=EVENTS,
@@ -1139,6 +1139,10 @@ def safety_replay(path, mode):
     d = _json.load(open(path))
     print(_json.dumps(d, indent=1)[:3000])
     inp = d.get("input") or {}
+    if d.get("kind") != "failing-input":  # a broken correspondence / theorem: re-run the check and see whether it still does not check
+        from .core import replay_by_rerun
+
+        return replay_by_rerun(lambda tier: safety_check(d.get("property", "C09" if mode == "T" else "C10"), mode, tier), path)
     if "spec" not in inp:
         return 1
     import ast
